@@ -108,6 +108,51 @@ Theorem C20_pct_monotone_in_step : forall w sw dw mdr kmax, width_model w sw dw 
 Proof. exact c20_pct_mono_step. Qed.
 Print Assumptions C20_pct_monotone_in_step.
 
+(* the SESSION (filter.go): the width is state of the session (options.TerminalColumns), copied
+   into every new bar.  Over every history of resizes (at any moment, with or without a live
+   bar), transfers one after the other (quiet or not, any announced pane width), callbacks of
+   the running transfer and stop prompts: no write is a panic, every line written by an event
+   fits the width of the MOST RECENT resize at that point of the history (sess_widths is a
+   function of the history alone), and the session ends up remembering that width *)
+Theorem C20_session : forall w sw dw mdr kmax, width_model w sw dw -> round_model mdr kmax ->
+  forall evs c0, 100 <= kmax -> c0 <= kmax -> Forall (sevent_ok kmax) evs ->
+  Forall2 (fun out wd => Forall (swr_ok dw wd) out)
+          (snd (sess_run_cur w sw mdr evs (sess_init c0))) (sess_widths evs c0) /\
+  s_cols (fst (sess_run_cur w sw mdr evs (sess_init c0))) = last (sess_widths evs c0) c0.
+Proof. exact c20_session. Qed.
+Print Assumptions C20_session.
+
+(* a new bar is laid out for the session's current width - or for the announced pane less its
+   margin, when the pane is not wider than the terminal *)
+Theorem C20_session_start_width : forall w sw dw mdr kmax, width_model w sw dw -> round_model mdr kmax ->
+  forall s pane,
+  match s_bar (fst (sess_step_cur w sw mdr (SeStart false pane) s)) with
+  | Some b => p_cols b = if (Consts.progress_tmux_min <? pane) && (pane <=? s_cols s)
+                         then pane - Consts.progress_tmux_margin else s_cols s
+  | None => False
+  end.
+Proof. exact c20_session_start. Qed.
+Print Assumptions C20_session_start_width.
+
+(* a resize reaches the session AND the live bar, whenever it happens *)
+Theorem C20_session_resize_width : forall w sw mdr s c,
+  s_cols (fst (sess_step_cur w sw mdr (SeResize c) s)) = c /\
+  match s_bar s, s_bar (fst (sess_step_cur w sw mdr (SeResize c) s)) with
+  | Some _, Some b' => p_cols b' = c
+  | None, None => True
+  | _, _ => False
+  end.
+Proof. exact c20_session_resize. Qed.
+Print Assumptions C20_session_resize_width.
+
+(* the history of the second seeded change: 120 columns, a transfer, a resize to 60 during it,
+   its end, a second transfer - whose bar is laid out for 60 columns *)
+Example C20_session_two_transfers :
+  option_map p_cols (s_bar (fst (sess_run_cur (fun _ => 1%nat) (fun s => length s) mdr_exact
+     [SeStart false (-1); SeResize 60; SeEnd; SeStart false (-1)] (sess_init 120)))) = Some 60 /\
+  sess_widths [SeStart false (-1); SeResize 60; SeEnd; SeStart false (-1)] 120 = [120; 60; 60; 60].
+Proof. vm_compute. split; reflexivity. Qed.
+
 (* the premises are satisfiable: the exact rounding the correspondence check executes is a
    round_model for every bound, and there is a width model *)
 Theorem C20_exact_rounding_is_a_model : forall kmax, round_model mdr_exact kmax.
